@@ -18,8 +18,10 @@ import (
 	"net/http"
 	"net/http/httptest"
 	"net/url"
+	"runtime"
 	"strings"
 	"sync"
+	"time"
 	"unicode/utf8"
 
 	goahttp "goa.design/goa/v3/http"
@@ -233,6 +235,57 @@ func encodeAddResponse(encoder func(context.Context, http.ResponseWriter) goahtt
 	}
 }
 
+type blobPayload struct {
+	ID   string
+	Data []byte
+}
+
+func decodeBlobRequest(mux goahttp.Muxer, decoder func(*http.Request) goahttp.Decoder) func(*http.Request) (any, error) {
+	return func(r *http.Request) (any, error) {
+		var (
+			body []byte
+			err  error
+		)
+		err = decoder(r).Decode(&body)
+		if err != nil {
+			if err == io.EOF {
+				return nil, goa.MissingPayloadError()
+			}
+			var gerr *goa.ServiceError
+			if errors.As(err, &gerr) {
+				return nil, gerr
+			}
+			return nil, goa.DecodePayloadError(err.Error())
+		}
+		var (
+			id string
+
+			params = mux.Vars(r)
+		)
+		id = params["id"]
+		return &blobPayload{id, body}, nil
+	}
+}
+
+func encodeBlobResponse(encoder func(context.Context, http.ResponseWriter) goahttp.Encoder) func(context.Context, http.ResponseWriter, any) error {
+	return func(ctx context.Context, w http.ResponseWriter, v any) error {
+		res, _ := v.([]byte)
+		ctx = context.WithValue(ctx, goahttp.ContentTypeKey, "text/plain")
+		enc := encoder(ctx, w)
+		body := res
+		w.WriteHeader(http.StatusOK)
+		return enc.Encode(body)
+	}
+}
+
+// the service keeps its payload while other requests are decoded, then returns it
+func blobEndpoint(ctx context.Context, v any) (any, error) {
+	p := v.(*blobPayload)
+	time.Sleep(time.Duration(50+len(p.ID)%7*60) * time.Microsecond)
+	runtime.Gosched()
+	return p.Data, nil
+}
+
 // newHandler is server_handler_init.go.tpl
 func newHandler(method string, endpoint goa.Endpoint,
 	decodeRequest func(*http.Request) (any, error),
@@ -295,6 +348,8 @@ func newHandServer(errs *collector) *httptest.Server {
 	add := newHandler("add", addEndpoint, decodeAddRequest(mux, dec), encodeAddResponse(enc), goahttp.ErrorEncoder(enc, nil), eh)
 	mux.Handle("GET", "/items/{id}", show.(http.HandlerFunc))
 	mux.Handle("POST", "/shelves/{shelf}/items", add.(http.HandlerFunc))
+	blob := newHandler("blob", blobEndpoint, decodeBlobRequest(mux, dec), encodeBlobResponse(enc), goahttp.ErrorEncoder(enc, nil), eh)
+	mux.Handle("POST", "/blobs/{id}", blob.(http.HandlerFunc))
 	return httptest.NewServer(mux)
 }
 
@@ -317,13 +372,18 @@ type echoResp struct {
 	Body    string            `json:"body"`
 }
 
-var echoKinds = []string{"show", "show", "show-tiny", "show-bad-id", "show-bad-query", "show-missing", "show-boom", "add", "add", "add-bad-count", "add-bad-json", "no-route"}
+// Accept values for structured results: exact, with parameters, q-valued, vendor/suffixed,
+// lists and wildcards (which the encoder does not negotiate: JSON)
+var echoAccepts = []string{"application/json", "application/xml", "", "application/json; charset=utf-8", "application/xml; charset=utf-8",
+	"application/xml;q=0.9", "application/json;q=0.2", "application/vnd.c20+json", "application/xml, application/json;q=0.5", "*/*", "APPLICATION/XML"}
+
+var echoKinds = []string{"blob", "blob", "show", "show", "show-tiny", "show-bad-id", "show-bad-query", "show-missing", "show-boom", "add", "add", "add-bad-count", "add-bad-json", "no-route"}
 
 func genEchoReq(r *vh.RNG, g, k int, tag string) echoReq {
 	id := fmt.Sprintf("%s%dx%dx%d", tag, g, k, r.Intn(100000))
 	kind := vh.Pick(r, echoKinds)
 	q := echoReq{Kind: kind, ID: id, Headers: map[string]string{}, Query: map[string]string{}}
-	acc := vh.Pick(r, []string{"application/json", "application/xml", "", "application/json"})
+	acc := vh.Pick(r, echoAccepts)
 	switch kind {
 	case "show", "show-tiny":
 		q.Method, q.Path = "GET", "/items/"+id
@@ -335,6 +395,10 @@ func genEchoReq(r *vh.RNG, g, k int, tag string) echoReq {
 		} else if r.Bool() {
 			q.Query["view"] = "default"
 		}
+	case "blob":
+		q.Method, q.Path = "POST", "/blobs/"+id
+		q.Headers["Content-Type"] = vh.Pick(r, []string{"text/plain", "text/html", "text/plain; charset=utf-8"})
+		q.Body = strings.Repeat(id+"#", 1+r.Intn(80))
 	case "show-bad-id":
 		q.Method, q.Path = "GET", "/items/BAD_"+id
 	case "show-bad-query":
@@ -390,7 +454,7 @@ func doEcho(cl *http.Client, base string, q echoReq) (echoResp, error) {
 			req.Header.Set(k, v)
 		}
 	}
-	if q.Body != "" {
+	if q.Body != "" && q.Headers["Content-Type"] == "" {
 		req.Header.Set("Content-Type", "application/json")
 	}
 	resp, err := cl.Do(req)
@@ -413,10 +477,7 @@ func sp(p *string) string {
 // checkEcho: the required response, computed from the request alone.
 func checkEcho(q echoReq, got echoResp) string {
 	id := q.ID
-	wantCT := "application/json"
-	if q.Headers["Accept"] == "application/xml" {
-		wantCT = "application/xml"
-	}
+	wantCT := wantCT(q.Headers["Accept"]) // the function of THIS request's Accept value
 	decodeItem := func() (itemBody, string) {
 		var it itemBody
 		var err error
@@ -436,6 +497,13 @@ func checkEcho(q echoReq, got echoResp) string {
 		return e
 	}
 	switch q.Kind {
+	case "blob":
+		if got.Status != 200 || got.CT != "text/plain" {
+			return fmt.Sprintf("status %d Content-Type %q, expected 200 text/plain: %.80s", got.Status, got.CT, got.Body)
+		}
+		if got.Body != q.Body {
+			return fmt.Sprintf("the bytes that came back (%.60q…) are not the bytes this request sent (%.60q…)", got.Body, q.Body)
+		}
 	case "show", "show-tiny":
 		if got.Status != 200 {
 			return fmt.Sprintf("status %d, expected 200", got.Status)
